@@ -46,7 +46,7 @@ def world_spec(args, program):
                 root_copy=bool(args.get('root_copy', False)), npseed=int(args.get('npseed', 0)),
                 plan=args.get('plan'), profile=bool(args.get('profile')), profile_calls=bool(args.get('profile_calls')),
                 tick_modules=args.get('tick_modules') or [], canary=args.get('canary'), repo=args.get('repo'),
-                trace=bool(args.get('trace')), script=args.get('script'))
+                trace=bool(args.get('trace')), script=args.get('script'), rank_hashseeds=args.get('rank_hashseeds'))
     if args.get('max_steps'):
         spec['max_steps'] = int(args['max_steps'])
     return spec
